@@ -32,7 +32,8 @@ ASSUMPTIONS = [
     'sums are compared to 1e-9 + 5e-8 m / (geodesic length of the segment): float64 radians and the geodesic solver resolve a few nanometres (largest deviation of the unchanged code on the 3 300 tiny legs: 4.8e-9 m / length)',
     'ordinary segment: sum of pieces / value must lie in [1, R] (to 1e-9), R = (sum of geodesic lengths of the oracle intersection polyline) / (geodesic length of the segment); R = 1 inside one cell',
     'antimeridian segment: sum of pieces / value must lie in [1 - 1e-9, 1 + 2e-3] (route across the antimeridian is not prescribed by the conservation clause)',
-    'one long-lived Gridder per grid and worker (repeated calls on the same object)',
+    'every case is evaluated in a forked child of a worker that has never gridded anything, so each verdict is reproducible in a fresh process; '
+    'state carried between calls is explored by the sequence sub-lattices (2-3 paths gridded in one process, same or new Gridder object) and by the order-independence pass',
 ]
 
 RTOL = 1e-9
@@ -102,7 +103,11 @@ def conservation(ev):
 
 
 def run_case(case):
-    ev = R.evaluate(case)
+    return R.run_isolated(run_single, case)
+
+
+def run_single(case, fresh=False):
+    ev = R.evaluate(case, fresh=fresh)
     if 'error' in ev:
         ex = ev['error']
         return {'outcome': f'error:{type(ex).__name__}', 'nontrivial': True, 'violations': [V('exception', f'{type(ex).__name__}: {str(ex)[:300]}')]}
